@@ -401,7 +401,38 @@ func (x *Exec) loopSpecFor(fr *Frame, lp *loop) *loopSpec {
 	if x.target == nil || fr.fn != x.targetFn {
 		return nil
 	}
-	return x.target.Loops[lp.ordinal]
+	ls := x.target.Loops[lp.ordinal]
+	if ls == nil || ls.stale {
+		return nil
+	}
+	return ls
+}
+
+// loopSpecResolvable: every variable a loop clause mentions can be found at the
+// loop header. If the code changed shape (another kind of loop, a renamed or
+// removed variable) the clauses are stale: they are dropped, with a message,
+// and the function is checked without them.
+func (x *Exec) loopSpecResolvable(fr *Frame, lp *loop, ls *loopSpec, st *State) (ok bool) {
+	defer func() {
+		if r := recover(); r != nil {
+			if u, isU := r.(unsupported); isU {
+				fmt.Fprintf(os.Stderr, "STALE-LOOP-CLAUSE contract %s loop %d: %s; clauses ignored\n", x.target.Name, lp.ordinal, u.msg)
+				ls.stale = true
+				ok = false
+				return
+			}
+			panic(r)
+		}
+	}()
+	for fnName, names := range ls.paramsOf {
+		if _, isOld := ls.oldSSA[fnName]; isOld {
+			continue
+		}
+		for _, n := range names {
+			x.resolveName(fr, lp.header, n, st)
+		}
+	}
+	return true
 }
 
 // resolveName finds the SSA value holding source variable name at header hdr.
@@ -549,6 +580,9 @@ func (x *Exec) enterLoop(fr *Frame, lp *loop, st *State) {
 	ts := x.w.ts
 	ls := x.loopSpecFor(fr, lp)
 	hdr := lp.header
+	if ls != nil && !x.loopSpecResolvable(fr, lp, ls, st) {
+		ls = nil
+	}
 	if ls != nil {
 		for k, f := range ls.invSSA {
 			v := x.evalLoopFn(fr, hdr, ls, ls.invFns[k], f, st)
